@@ -1370,6 +1370,12 @@ def atomic_diffs(a, b, path="", out=None):
         if a[0] in LEAF_TAGS and b[0] in LEAF_TAGS:
             out.append(f"{path}: {_short(a)} instead of {_short(b)}")
             return out
+        # an explicit broadcast_to against the implicit broadcasting of the operation that consumes the value: whether
+        # the two agree depends on the shapes of the other operands -- no verdict from it
+        for x, y, word in ((a, b, "is explicitly broadcast"), (b, a, "is no longer explicitly broadcast")):
+            if x[0] == "op" and len(x) == 5 and x[1] == "broadcast_to" and x[2] and x[2][0][1] == y:
+                out.append(f"~{path}: the value {word} (broadcast_to)")
+                return out
         # the reviewed value wrapped in a value-changing operation (cast, rounding, clipping, ...)
         for x, y, word in ((a, b, "is additionally transformed by"), (b, a, "is no longer transformed by")):
             if x[0] == "op" and len(x) == 5 and x[1] in _VALUE_OPS and dict(x[2]).get("a") == y:
